@@ -142,14 +142,6 @@ def BState.compileFrom (s : BState) (istate : Nat) : Except BErr BState :=
 
 /-! ### unfinished-node stack operations -/
 
-/-- `find_common_prefix` -/
-def findCommonPrefix : List UNode → Key → Nat
-  | u :: rest, b :: bs =>
-    match u.last with
-    | some (b', _) => if b' = b then findCommonPrefix rest bs + 1 else 0
-    | none => 0
-  | _, _ => 0
-
 /-- `add_output_prefix` -/
 def UNode.addPrefix (p : Nat) (u : UNode) : UNode :=
   { node := { fin := u.node.fin
@@ -204,9 +196,7 @@ def BState.insertOutput (s : BState) (bs : Key) (out : Option Nat) : Except BErr
   if bs.isEmpty then
     .ok { s with len := 1, stack := setRootOutput s.stack (out.getD 0) }
   else
-    let (prefixLen, rem, stack') := match out with
-      | some o => cps s.stack bs o
-      | none => (findCommonPrefix s.stack bs, 0, s.stack)
+    let (prefixLen, rem, stack') := cps s.stack bs (out.getD 0)
     let s := { s with stack := stack' }
     if prefixLen = bs.length then
       if rem ≠ 0 then .error (.panic "assert!(out.is_zero())") else .ok s
